@@ -33,5 +33,6 @@ func TestCheck(t *testing.T) {
 			"CommitWith callbacks and Close racing with a commit are exercised in C37/C34, not here"},
 	}
 	pbt.Add(s, &pbt.Spec[txm.Case]{Name: "history", Gen: gen, Run: txm.Run, Quick: 400, Thorough: 30000, Shards: 16})
+	pbt.Add(s, &pbt.Spec[ioCase]{Name: "iofault", Gen: genIO, Run: runIO, Quick: 240, Thorough: 8000, Shards: 8})
 	s.Main(t)
 }
